@@ -216,6 +216,16 @@ class Engine(Interp):
                         if signed and x > thi:
                             x -= 1 << bits
                         return [(st, Int.const(x, bits, signed), None, None, None, ())]
+                    # a whole interval wraps uniformly when both ends fall into the same period of the target type
+                    # (e.g. u64 in [2^63, 2^64-1] as i64 is [-2^63, -1])
+                    m = 1 << bits
+                    if v.hi - v.lo < m:
+                        def wrap(x):
+                            y = x & (m - 1)
+                            return y - m if (signed and y > thi) else y
+                        wlo, whi = wrap(v.lo), wrap(v.hi)
+                        if wlo <= whi and whi - wlo == v.hi - v.lo:
+                            return [(st, Int(wlo, whi, bits, signed), None, None, None, ())]
                     return [(st, Int.top(bits, signed), None, None, None, ())]
                 if tk == "bool":
                     return [(st, v, None, None, None, ())]
@@ -287,36 +297,64 @@ class Engine(Interp):
             return [(st, Arr(ln, v, None, "array"), None, None, None, ())]
         return [(st, self.top_of(dest.get("ty"), st, ("rv", frame.uid, bb)), None, None, None, ())]
 
+    def _split_escaping_bools(self, st, frame, rv):
+        """a boolean that still carries a pending definition (it is the outcome of a comparison / a variant test) and is about to be stored
+        into an aggregate escapes the place where a later `switch` could follow that definition: decide it here, once per outcome"""
+        states = [st]
+        if rv.get("k") != "agg" or rv.get("agg") not in ("adt", "tuple"):
+            return states
+        for op in rv.get("ops", ()):
+            if op.get("k") not in ("copy", "move") or op["place"]["proj"]:
+                continue
+            loc = (frame.cell(op["place"]["local"]), ())
+            nxt = []
+            for s in states:
+                leaf = s.leaf(loc)
+                d = s.defs.get(loc)
+                if leaf is None or leaf.bits != 1 or leaf.is_const() or d is None or d[0] not in ("cmp", "not", "isvar"):
+                    nxt.append(s)
+                    continue
+                for val in (0, 1):
+                    s2 = s.copy() if val == 0 else s
+                    try:
+                        self.assume_var(s2, loc, val, True)
+                        nxt.append(s2)
+                    except Infeasible:
+                        pass
+            states = nxt
+        return states
+
     def exec_stmt(self, st, frame, bb, idx, stmt):
         k = stmt["k"]
         if k == "assign":
             out = []
-            for (s, val, lin, src, defn, extras) in self.eval_rvalue(st, frame, bb, stmt["rv"], stmt["place"]):
-                dloc = self.resolve(s, frame, stmt["place"], for_write=True)
-                if dloc is None:
-                    out.append(s)
-                    continue
-                # extras/defs may mention the destination itself (x = x + 1): lin computed before the kill
-                self.write_loc(s, dloc, val, lin, src)
-                if stmt["rv"]["k"] == "agg" and self.hooks.get("aggregate"):
-                    self.emit("aggregate", st=s, frame=frame, rv=stmt["rv"], span=mirlib.Span(stmt["span"]), place=stmt["place"])
-                if defn is not None and "elem" not in dloc[1]:
-                    if not any(v[0] == dloc[0] and v[1][:len(dloc[1])] == dloc[1] for v in _defvars(defn)):
-                        s.defs[dloc] = defn
-                for ex in extras:
-                    if ex[0] == "reloc":
-                        s.relocate_guards(ex[1], (dloc[0], dloc[1] + ex[2]))
-                        continue
-                    sub, l = ex
-                    if l is None or l.is_const():
-                        continue
-                    tv = (dloc[0], dloc[1] + sub)
-                    if tv in l.terms:
-                        continue
-                    leaf = s.leaf(tv)
-                    if leaf is not None and not leaf.is_const():
-                        s.cons.add_eq(LinForm.var(tv) - l)
-                out.append(s)
+            for st_ in self._split_escaping_bools(st, frame, stmt["rv"]):
+              for (s, val, lin, src, defn, extras) in self.eval_rvalue(st_, frame, bb, stmt["rv"], stmt["place"]):
+                  dloc = self.resolve(s, frame, stmt["place"], for_write=True)
+                  if dloc is None:
+                      out.append(s)
+                      continue
+                  # extras/defs may mention the destination itself (x = x + 1): lin computed before the kill
+                  self.write_loc(s, dloc, val, lin, src)
+                  if stmt["rv"]["k"] == "agg" and self.hooks.get("aggregate"):
+                      self.emit("aggregate", st=s, frame=frame, rv=stmt["rv"], span=mirlib.Span(stmt["span"]), place=stmt["place"])
+                  if defn is not None and "elem" not in dloc[1]:
+                      if not any(v[0] == dloc[0] and v[1][:len(dloc[1])] == dloc[1] for v in _defvars(defn)):
+                          s.defs[dloc] = defn
+                  for ex in extras:
+                      if ex[0] == "reloc":
+                          s.relocate_guards(ex[1], (dloc[0], dloc[1] + ex[2]))
+                          continue
+                      sub, l = ex
+                      if l is None or l.is_const():
+                          continue
+                      tv = (dloc[0], dloc[1] + sub)
+                      if tv in l.terms:
+                          continue
+                      leaf = s.leaf(tv)
+                      if leaf is not None and not leaf.is_const():
+                          s.cons.add_eq(LinForm.var(tv) - l)
+                  out.append(s)
             return out
         if k == "dead":
             st.kill_cell(frame.cell(stmt["local"]))
@@ -795,7 +833,8 @@ class Engine(Interp):
             tv = ()
             if bb in loops:
                 tv = self.template_vars(s, frame, loops[bb][1])
-            j = join_states(old, s, widen=w, thresholds=th, templates=tmpl, template_vars=tv)
+            # a constraint whose constant has to be relaxed again on a later visit of a loop head is drifting: relax once, then let it go
+            j = join_states(old, s, widen=w, thresholds=th, templates=tmpl, template_vars=tv, relax=not (bb in loops and visits[key] >= 2))
             j.tag = tag
             in_states[key] = j
             if key not in work:
